@@ -26,6 +26,18 @@ def free_port():
 
 
 def http(port, method, target, headers=(), body=None, timeout=30):
+    """One request; a connection reset by a busy single-threaded test server is retried."""
+    last = None
+    for attempt in range(4):
+        try:
+            return _http(port, method, target, headers, body, timeout)
+        except (ConnectionResetError, ConnectionRefusedError, BrokenPipeError, socket.timeout) as exc:
+            last = exc
+            time.sleep(0.2 * (attempt + 1))
+    raise last
+
+
+def _http(port, method, target, headers=(), body=None, timeout=30):
     s = socket.create_connection(("127.0.0.1", port), timeout=timeout)
     try:
         lines = ["%s %s HTTP/1.1" % (method, target), "Host: localhost", "Connection: close"]
